@@ -174,6 +174,27 @@ def check(case, rec):
     for w in nd:
         if w in binary:
             raise Violation("configuration/content plaintext window %s appears in clear in the written file" % w.hex())
+    # ALIASING: the same component OBJECT put into a second file that is written under ANOTHER key - its payload there is the ciphertext
+    # under that file's key (nothing remembered from the first write), and the first file written again is unchanged
+    key2 = bytes(x ^ 0x3C for x in key)
+    f2 = sut.Bf3File({}, [comp])
+    try:
+        s2 = io.StringIO()
+        f2.write_file(s2, key2)
+        _, b2, _ = M.parse_text_strict(s2.getvalue())
+        p2 = M.parse_bf3_strict(b2, key2)
+    except M.Reject as e:
+        raise Violation("second file holding the same component object, written under another key, is malformed: %s" % e)
+    except Exception as e:
+        raise Violation("writing a second file that holds the same component object raised %s: %s" % (type(e).__name__, e))
+    if p2[0]["stored"] != ossl.cbc_encrypt(key2, ossl.zeropad(content)):
+        raise Violation("the same component object in a second file written under another session key is not stored as the ciphertext under THAT key")
+    try:
+        text_again, _ = sut.write_text(write, "stream")
+    except Exception as e:
+        raise Violation("writing the first file again raised %s: %s" % (type(e).__name__, e))
+    if framing == "bf3" and text_again != text:
+        raise Violation("the first file written again (after its component was also written in another file under another key) differs from its first text")
     if case["via"] == "direct" and case.get("desc_kind", "enc") != "enc":
         rec.cls("flag-without-enc-tag")
         return
